@@ -402,6 +402,17 @@ def rule_shared_state(ctx, R, modules, what):
                 ctx.ob(R, f.qname, f"objects held in the memo {cont} are not modified in place", False,
                        f"{desc}; the memoised object is handed to every later call, and `{muts[0][1][:60]}` modifies it in place: the second request gets a different value; {what}", muts[0][0])
                 continue
+            # a memo is a function of its key only if the computation is: a value read from a file (np.load, open, imread, <object>.load(path), ...)
+            # depends on the file's contents at the time of the first request
+            IO_FUNCS = ("np.load", "np.loadtxt", "np.genfromtxt", "np.fromfile", "open", "json.load", "pickle.load", "cv2.imread", "skimage.io.imread", "darsia.imread", "imread",
+                        "pd.read_csv", "Image.open")
+            io_calls = [norm(c_)[:50] for c_ in ast.walk(f.node) if isinstance(c_, ast.Call)
+                        and (norm(c_.func) in IO_FUNCS or (isinstance(c_.func, ast.Attribute) and c_.func.attr in ("load", "read", "read_text", "read_bytes", "load_from_file", "imread") and norm(c_.func.value) not in ("json", "pickle")))]
+            if io_calls:
+                ctx.ob(R, f.qname, f"the memo {cont} is a function of its key", False,
+                       f"{desc}; the stored value is read from a file (`{io_calls[0]}`): the key names the file, not its contents -- once the file is written again under the same name, "
+                       f"every later request in the process still gets what was read first; {what}", node, evidence=True)
+                continue
             ctx.note(f"{R}: {f.short}: {desc} -- keyed on everything the stored value is computed from ({sorted(kd)}), accepted as a memo")
             continue
         missing = sorted(vd - kd)
